@@ -43,8 +43,9 @@ fn ptr_of(p: &J) -> Vec<PointerNode> {
 }
 /// three ways of reaching `&mut Value` at a path (all of them promote along the way)
 fn nav<'a>(v: &'a mut Value, p: &[PointerNode], how: usize) -> Option<&'a mut Value> {
-    if p.is_empty() { return Some(v); }
+    if p.is_empty() && how % 3 != 0 { return Some(v); }
     match how % 3 {
+        // the empty path denotes the value itself (as pointer(&[]) does)
         0 => v.pointer_mut(p.iter()),
         1 => { let mut cur = v; for e in p { cur = match e { PointerNode::Key(k) => cur.get_mut(k.as_str())?, PointerNode::Index(i) => cur.get_mut(*i)? }; } Some(cur) }
         _ => { let mut cur = v; for e in p { cur = match e { PointerNode::Key(k) => &mut cur[k.as_str()], PointerNode::Index(i) => &mut cur[*i] }; } Some(cur) }
@@ -98,52 +99,76 @@ fn step(w: &mut World, op: &J, how: usize) -> Result<(), String> {
             let arg: Value = match op["src"].as_str().unwrap() { "lit" => sjson!(7), "null" => Value::default(), q => w.slots[slot_ix(&json!(q))].take().ok_or("mut: empty source slot")? };
             let want_ok = op["ok"].as_bool().unwrap();
             let o = slot_ix(&op["o"]);
-            let out: Result<Option<Value>, String> = {
+            let out: Result<Vec<Value>, String> = {
                 let tgt = nav(w.slots[s].as_mut().ok_or("mut: empty slot")?, &p, how).ok_or("mut: path does not resolve")?;
                 if op["kind"] == "arr" {
                     let i = op["arg"].as_u64().unwrap() as usize;
                     let a = tgt.as_array_mut().ok_or("not an array")?;
                     // calls the reference rejects panic as documented (index out of bounds): caught, contents must be unchanged
-                    catch(move || match f {
-                        "push" => { a.push(arg); None }
-                        "pop" => a.pop(),
-                        "insert" => { a.insert(i, arg); None }
-                        "remove" => { a.remove(i); None }
-                        "swap_remove" => Some(a.swap_remove(i)),
-                        "truncate" => { a.truncate(i); None }
-                        "clear" => { a.clear(); None }
-                        "resize" => { a.resize(i, arg); None }
-                        "extend_from_within" => { a.extend_from_within(0..i); None }
-                        "set" => { a[i] = arg; None }
-                        "take_elem" => Some(a[i].take()),
+                    catch(move || -> Vec<Value> { match f {
+                        "push" => { a.push(arg); vec![] }
+                        "pop" => a.pop().into_iter().collect(),
+                        "insert" => { a.insert(i, arg); vec![] }
+                        "remove" => { a.remove(i); vec![] }
+                        "swap_remove" => vec![a.swap_remove(i)],
+                        "truncate" => { a.truncate(i); vec![] }
+                        "clear" => { a.clear(); vec![] }
+                        "resize" => { a.resize(i, arg); vec![] }
+                        "extend_from_within" => { a.extend_from_within(0..i); vec![] }
+                        "set" => { a[i] = arg; vec![] }
+                        "take_elem" => vec![a[i].take()],
+                        "drain" => a.drain(..i).collect(),
+                        "retain_even" => { let mut k = 0usize; a.retain(|_| { k += 1; k % 2 == 1 }); vec![] }
+                        "into_iter" => {
+                            // the owning iterator: what it reports about the elements not yet yielded, before and after the first one
+                            let n = a.len();
+                            let mut it = std::mem::take(a).into_iter();
+                            assert_eq!(it.len(), n, "IntoIter::len");
+                            assert_eq!(it.size_hint(), (n, Some(n)), "IntoIter::size_hint");
+                            assert_eq!(it.as_slice().len(), n, "IntoIter::as_slice before the first element");
+                            let mut outv = Vec::new();
+                            if let Some(x) = it.next() { outv.push(x); assert_eq!(it.len(), n - 1, "IntoIter::len after next"); }
+                            if let Some(x) = it.next_back() { let rest: Vec<Value> = it.by_ref().collect(); outv.extend(rest); outv.push(x); }
+                            assert!(it.next().is_none() && it.next_back().is_none(), "IntoIter is fused");
+                            // the array left behind is the empty default: its own iterator has nothing and says so
+                            let mut it2 = std::mem::take(a).into_iter();
+                            assert_eq!(it2.as_slice().len(), 0, "IntoIter::as_slice of an empty array");
+                            assert_eq!(it2.as_mut_slice().len(), 0, "IntoIter::as_mut_slice of an empty array");
+                            assert!(it2.next().is_none());
+                            outv
+                        }
                         _ => panic!("unknown array op {f}"),
-                    })
+                    } })
                 } else {
                     let key = op["arg"].as_str().unwrap().to_string();
                     if how % 2 == 0 || f != "set" {
                         let m = tgt.as_object_mut().ok_or("not an object")?;
-                        catch(move || match f {
-                            "insert" => m.insert(&key, arg),
-                            "remove" => m.remove(&key),
-                            "clear" => { m.clear(); None }
-                            "or_insert" => { m.entry(&key).or_insert(arg); None }
-                            "set" => { m.insert(&key, arg); None }
+                        catch(move || -> Vec<Value> { match f {
+                            "insert" => m.insert(&key, arg).into_iter().collect(),
+                            "remove" => m.remove(&key).into_iter().collect(),
+                            "clear" => { m.clear(); vec![] }
+                            "or_insert" => { m.entry(&key).or_insert(arg); vec![] }
+                            "set" => { m.insert(&key, arg); vec![] }
+                            "entry_key" => { let e = m.entry(&key); assert_eq!(e.key(), key.as_str(), "Entry::key"); vec![] }
+                            "and_modify" => { m.entry(&key).and_modify(|v| *v = arg); vec![] }
+                            "entry_remove" => match m.entry(&key) { sonic_rs::value::object::Entry::Occupied(e) => vec![e.remove()], sonic_rs::value::object::Entry::Vacant(e) => { assert_eq!(e.key(), key.as_str(), "VacantEntry::key"); vec![] } },
+                            "retain_not" => { m.retain(|k, _| k != key.as_str()); vec![] }
                             _ => panic!("unknown object op {f}"),
-                        })
+                        } })
                     } else {
-                        catch(move || { tgt[key.as_str()] = arg; None })      // IndexMut: index-or-insert, then assign
+                        catch(move || { tgt[key.as_str()] = arg; vec![] })      // IndexMut: index-or-insert, then assign
                     }
                 }
             };
             match out {
                 Ok(v) => {
                     if !want_ok { return Err(format!("{f}: the reference rejects this call but the implementation accepted it")); }
-                    let has_out = op["out"]["t"] != "none";
-                    if has_out != v.is_some() && !(f == "set" && op["kind"] == "obj") { return Err(format!("{f}: handed out {} but the reference {}", v.is_some(), has_out)); }
-                    if let Some(x) = v {
-                        if has_out && norm(&op["out"]) != plain(&x) { return Err(format!("{f}: handed out {} but the reference says {}", plain(&x), op["out"])); }
-                        if o != s && w.slots[o].is_none() { w.slots[o] = Some(x); }
+                    let outs = op["outs"].as_array().cloned().unwrap_or_default();
+                    if outs.len() != v.len() && !(f == "set" && op["kind"] == "obj") { return Err(format!("{f}: handed out {} values but the reference {}", v.len(), outs.len())); }
+                    for (k, x) in v.iter().enumerate() {
+                        if k < outs.len() && norm(&outs[k]) != plain(x) { return Err(format!("{f}: handed out {} as value {} but the reference says {}", plain(x), k, outs[k])); }
                     }
+                    if let Some(x) = v.into_iter().next() { if o != s && w.slots[o].is_none() { w.slots[o] = Some(x); } }
                 }
                 Err(p) => { if want_ok { return Err(format!("{f}: panicked: {p}")); } }
             }
